@@ -428,6 +428,7 @@ class TreeTensorNetwork(TreeStructure):
         self.ensure_shape_matching(tensor, parent_leg,
                                    former_root_node, root_leg,
                                    new_root_id)
+        parent.link_tensor(tensor)
         self._add_node(parent)
         parent.open_leg_to_child(self.root_id, parent_leg)
         former_root_node.open_leg_to_parent(new_root_id, root_leg)
